@@ -195,6 +195,48 @@ package engine
 //@   ensures text: rdData(e0.reader) == old(rdData(es.reader))
 //@   assumes snapshot: n > 0 ==> cellOk(es) && frozen(es, e0)
 
+// ---- loop protocol and not-in (C01 priority order, C10 progress mechanisms) ----
+// backtrackOf(r, nb, snap): r is what BACKTRACK leaves: FAILED when no snapshot was pending,
+// otherwise exactly the newest snapshot.
+//@ pred backtrackOf(r *SearchEngineState, nb Int, snap SearchEngineState) := nb == 0 ? r.status == FAILED : *r == snap
+
+//@ func matchEndNotIn [C03 C09 C10 C01]
+//@   requires cellOk(current_state)
+//@   presumes i.MaxSize >= 0
+//@   let c0 := *current_state
+//@   let d0 := rdData(current_state.reader)
+//@   let nb := len(current_state.backtrack.store)
+//@   let snap0 := current_state.backtrack.store[nb - 1]
+//@   modifies inferred
+//@   ensures step: cellOk(result) && frozen(result, c0) && rdData(result.reader) == d0
+//@   ensures progress: (result.currentFileOffset > c0.currentFileOffset && result.programCounter == c0.programCounter + 1 && result.status == c0.status) || backtrackOf(result, nb, snap0) [C10 C01]
+
+//@ func matchStartLoop [C03 C09 C10 C01]
+//@   requires cellOk(current_state)
+//@   presumes len(current_state.loopStack.store) > 0 ==> current_state.loopStack.store[len(current_state.loopStack.store) - 1].variables.Value != nil
+//@   presumes current_state.environment.Value != nil
+//@   let c0 := *current_state
+//@   let d0 := rdData(current_state.reader)
+//@   let n := len(current_state.loopStack.store)
+//@   let top0 := current_state.loopStack.store[n - 1]
+//@   let again := sameLoop(current_state, i.Id)
+//@   let nb := len(current_state.backtrack.store)
+//@   let snap0 := current_state.backtrack.store[nb - 1]
+//@   let zero := again && top0.loopMatchIndexStart == len(current_state.currentMatch)
+//@   let iter := again ? top0.iterationStep + 1 : 0
+//@   let inRange := i.MaxLoops == -1 || iter <= i.MaxLoops
+//@   modifies inferred
+//@   ensures step: cellOk(result) && frozen(result, c0) && rdData(result.reader) == d0
+//@   ensures zerowidth: zero ==> backtrackOf(result, nb, snap0) [C10 C01]
+//@   ensures below: !zero && iter < i.MinLoops ==> result.programCounter == c0.programCounter + 1 && len(result.backtrack.store) == nb && result.currentFileOffset == c0.currentFileOffset [C01]
+//@   ensures greedy: !zero && iter >= i.MinLoops && inRange && !i.Fewest ==> result.programCounter == c0.programCounter + 1 && len(result.backtrack.store) == nb + 1 && result.backtrack.store[nb].programCounter == i.ExitLoop + 1
+//@        && len(result.backtrack.store[nb].loopStack.store) + 1 == len(result.loopStack.store) && result.currentFileOffset == c0.currentFileOffset && result.backtrack.store[nb].currentFileOffset == c0.currentFileOffset [C01]
+//@   ensures lazy: !zero && iter >= i.MinLoops && inRange && i.Fewest ==> result.programCounter == i.ExitLoop + 1 && len(result.backtrack.store) == nb + 1 && result.backtrack.store[nb].programCounter == c0.programCounter + 1
+//@        && len(result.backtrack.store[nb].loopStack.store) == len(result.loopStack.store) + 1 && result.currentFileOffset == c0.currentFileOffset && result.backtrack.store[nb].currentFileOffset == c0.currentFileOffset [C01]
+//@   ensures over: !zero && iter >= i.MinLoops && !inRange ==> backtrackOf(result, nb, snap0) [C01]
+//@   ensures record: !zero && (iter < i.MinLoops || (inRange && !i.Fewest)) ==> len(result.loopStack.store) > 0 && result.loopStack.store[len(result.loopStack.store) - 1].iterationStep == iter
+//@        && result.loopStack.store[len(result.loopStack.store) - 1].loopMatchIndexStart == len(result.currentMatch) && result.loopStack.store[len(result.loopStack.store) - 1].loopId == i.Id [C10 C01]
+
 // ---- VM primitives: each keeps the cell invariant and never moves the attempt's start ----
 //@ func (*SearchEngineState).READ [C03 C09 C07]
 //@   requires cellOk(es) && length >= 0
@@ -324,32 +366,43 @@ package engine
 //@   modifies inferred
 //@   ensures step: cellOk(es) && frozen(es, e0) && rdData(es.reader) == d0
 
-//@ func (*SearchEngineState).CHECKPOINT [C03 C09 C10 C02]
+//@ func (*SearchEngineState).CHECKPOINT [C03 C09 C10 C02 C01]
 //@   requires cellOk(es)
 //@   let e0 := *es
 //@   let d0 := rdData(es.reader)
-//@   modifies inferred
-//@   ensures step: cellOk(es) && frozen(es, e0) && rdData(es.reader) == d0
-//@   ensures pushed: len(es.backtrack.store) == len(e0.backtrack.store) + 1 && es.programCounter == e0.programCounter && es.currentFileOffset == e0.currentFileOffset && es.currentMatch == e0.currentMatch && es.status == e0.status
+//@   let n := len(es.backtrack.store)
+//@   modifies es.backtrack.store, elems(es.backtrack.store)
+//@   ensures step: cellOk(es) && frozen(es, e0) && rdData(es.reader) == d0 && *es == e0
+//@   ensures pushed: len(es.backtrack.store) == n + 1
+//@   ensures kept: forall k :: { es.backtrack.store[k] } 0 <= k && k < n ==> es.backtrack.store[k] == old(e0.backtrack.store[k])
+//@   ensures snap: es.backtrack.store[n].programCounter == e0.programCounter && es.backtrack.store[n].currentFileOffset == e0.currentFileOffset && es.backtrack.store[n].currentMatch == e0.currentMatch && es.backtrack.store[n].status == e0.status
+//@   ensures snaploops: es.backtrack.store[n].loopStack != nil && es.backtrack.store[n].loopStack != e0.loopStack && len(es.backtrack.store[n].loopStack.store) == len(e0.loopStack.store) && es.backtrack.store[n].callStack != nil && len(es.backtrack.store[n].callStack.store) == len(e0.callStack.store)
+//@   ensures snapframe: frozen(&es.backtrack.store[n], e0)
 
-//@ func (*SearchEngineState).INITLOOPSTACK [C03 C09 C10]
+//@ pred sameLoop(es *SearchEngineState, loopId Int) := len(es.loopStack.store) > 0 && es.loopStack.store[len(es.loopStack.store) - 1].loopId == loopId && es.loopStack.store[len(es.loopStack.store) - 1].callLevel == len(es.callStack.store)
+//@ func (*SearchEngineState).INITLOOPSTACK [C03 C09 C10 C01]
 //@   requires cellOk(es)
 //@   let e0 := *es
 //@   let d0 := rdData(es.reader)
-//@   modifies inferred
-//@   ensures step: cellOk(es) && frozen(es, e0) && rdData(es.reader) == d0
-//@   ensures nonempty: len(es.loopStack.store) > 0
-//@   ensures same: es.currentFileOffset == e0.currentFileOffset && es.currentMatch == e0.currentMatch && es.programCounter == e0.programCounter && es.status == e0.status && es.backtrack == e0.backtrack
+//@   let n := len(es.loopStack.store)
+//@   let again := sameLoop(es, loopId)
+//@   let top0 := es.loopStack.store[n - 1]
+//@   modifies es.loopStack.store, elems(es.loopStack.store)
+//@   ensures step: cellOk(es) && frozen(es, e0) && rdData(es.reader) == d0 && *es == e0
+//@   ensures first: result == !again
+//@   ensures again: again ==> len(es.loopStack.store) == n && es.loopStack.store[n - 1] == top0
+//@   ensures pushed: !again ==> len(es.loopStack.store) == n + 1 && es.loopStack.store[n].loopId == loopId && es.loopStack.store[n].callLevel == len(es.callStack.store) && es.loopStack.store[n].iterationStep == 0 && es.loopStack.store[n].loopMatchIndexStart == len(es.currentMatch) && es.loopStack.store[n].name == name && es.loopStack.store[n].variables.Value != nil
 
-//@ func (*SearchEngineState).INCLOOPSTACK [C03 C09 C10]
+//@ func (*SearchEngineState).INCLOOPSTACK [C03 C09 C10 C01]
 //@   requires cellOk(es) && len(es.loopStack.store) > 0
 //@   presumes es.loopStack.store[len(es.loopStack.store) - 1].variables.Value != nil
 //@   let e0 := *es
 //@   let d0 := rdData(es.reader)
-//@   modifies inferred
-//@   ensures step: cellOk(es) && frozen(es, e0) && rdData(es.reader) == d0
-//@   ensures nonempty: len(es.loopStack.store) > 0
-//@   ensures same: es.currentFileOffset == e0.currentFileOffset && es.currentMatch == e0.currentMatch && es.programCounter == e0.programCounter && es.status == e0.status && es.backtrack == e0.backtrack
+//@   let n := len(es.loopStack.store)
+//@   let top0 := es.loopStack.store[n - 1]
+//@   modifies es.loopStack.store[n - 1].iterationStep, es.loopStack.store[n - 1].loopMatchIndexStart, entries(es.loopStack.store[n - 1].variables.Value)
+//@   ensures step: cellOk(es) && frozen(es, e0) && rdData(es.reader) == d0 && *es == e0
+//@   ensures inc: len(es.loopStack.store) == n && es.loopStack.store[n - 1].iterationStep == top0.iterationStep + 1 && es.loopStack.store[n - 1].loopMatchIndexStart == len(es.currentMatch) && es.loopStack.store[n - 1].loopId == top0.loopId && es.loopStack.store[n - 1].callLevel == top0.callLevel && es.loopStack.store[n - 1].name == top0.name
 
 //@ func (*SearchEngineState).GETITERATIONSTEP [C03 C09 C10]
 //@   requires es != nil && es.loopStack != nil && len(es.loopStack.store) > 0
@@ -359,23 +412,28 @@ package engine
 //@   requires es != nil && es.loopStack != nil && len(es.loopStack.store) > 0
 //@   ensures result == (es.loopStack.store[len(es.loopStack.store) - 1].loopMatchIndexStart == len(es.currentMatch))
 
-//@ func (*SearchEngineState).POPLOOPSTACK [C03 C09 C10]
+//@ func (*SearchEngineState).POPLOOPSTACK [C03 C09 C10 C01]
 //@   requires cellOk(es) && len(es.loopStack.store) > 0
 //@   presumes es.environment.Value != nil
 //@   let e0 := *es
 //@   let d0 := rdData(es.reader)
-//@   modifies inferred
-//@   ensures step: cellOk(es) && frozen(es, e0) && rdData(es.reader) == d0
-//@   ensures same: es.currentFileOffset == e0.currentFileOffset && es.currentMatch == e0.currentMatch && es.programCounter == e0.programCounter && es.status == e0.status && es.backtrack == e0.backtrack
+//@   let n := len(es.loopStack.store)
+//@   let top0 := es.loopStack.store[n - 1]
+//@   let st0 := es.loopStack.store
+//@   modifies es.loopStack.store, allmaps(es.environment.Value)
+//@   ensures step: cellOk(es) && frozen(es, e0) && rdData(es.reader) == d0 && *es == e0
+//@   ensures popped: len(es.loopStack.store) == n - 1 && es.loopStack.store.ref == st0.ref && es.loopStack.store.lo == st0.lo && result == top0
 
-//@ func (*SearchEngineState).PUSHLOOPSTACK [C03 C09 C10]
+//@ func (*SearchEngineState).PUSHLOOPSTACK [C03 C09 C10 C01]
 //@   requires cellOk(es)
 //@   let e0 := *es
 //@   let d0 := rdData(es.reader)
-//@   modifies inferred
-//@   ensures step: cellOk(es) && frozen(es, e0) && rdData(es.reader) == d0
-//@   ensures nonempty: len(es.loopStack.store) > 0
-//@   ensures same: es.currentFileOffset == e0.currentFileOffset && es.currentMatch == e0.currentMatch && es.programCounter == e0.programCounter && es.status == e0.status && es.backtrack == e0.backtrack
+//@   let n := len(es.loopStack.store)
+//@   let st0 := es.loopStack.store
+//@   modifies es.loopStack.store, elems(es.loopStack.store)
+//@   ensures step: cellOk(es) && frozen(es, e0) && rdData(es.reader) == d0 && *es == e0
+//@   ensures pushed: len(es.loopStack.store) == n + 1 && es.loopStack.store[n] == loopState
+//@   ensures kept: forall k :: { es.loopStack.store[k] } 0 <= k && k < n ==> es.loopStack.store[k] == old(st0[k])
 
 //@ func (*SearchEngineState).STARTVAR [C03 C09 C10]
 //@   requires cellOk(es)
@@ -402,7 +460,7 @@ package engine
 //@   presumes forall k :: { es.loopStack.store[k].variables } 0 <= k && k < len(es.loopStack.store) ==> es.loopStack.store[k].variables.Value != nil
 //@   let e0 := *es
 //@   let d0 := rdData(es.reader)
-//@   modifies inferred
+//@   modifies allmaps(es.environment.Value)
 //@   ensures step: cellOk(es) && frozen(es, e0) && rdData(es.reader) == d0
 //@   ensures same: *es == e0
 //@   loop 1 invariant cellOk(es) && frozen(es, e0) && rdData(es.reader) == d0 && *es == e0 && i < len(es.loopStack.store) && (lowestScope != nil ==> lowestScope.variables.Value != nil)
@@ -502,13 +560,6 @@ package engine
 //@   modifies inferred
 //@   ensures step: cellOk(result) && frozen(result, c0) && rdData(result.reader) == d0
 
-//@ func matchStartLoop [C03 C09 C10]
-//@   requires cellOk(current_state)
-//@   let c0 := *current_state
-//@   let d0 := rdData(current_state.reader)
-//@   modifies inferred
-//@   ensures step: cellOk(result) && frozen(result, c0) && rdData(result.reader) == d0
-
 //@ func matchVariable [C03 C09 C10 C02]
 //@   requires cellOk(current_state)
 //@   let c0 := *current_state
@@ -522,14 +573,6 @@ package engine
 //@   let d0 := rdData(current_state.reader)
 //@   modifies inferred
 //@   ensures step: cellOk(result) && frozen(result, c0) && rdData(result.reader) == d0
-
-//@ func matchEndNotIn [C03 C09 C10]
-//@   requires cellOk(current_state)
-//@   let c0 := *current_state
-//@   let d0 := rdData(current_state.reader)
-//@   modifies inferred
-//@   ensures step: cellOk(result) && frozen(result, c0) && rdData(result.reader) == d0
-//@   ensures progress: result.status == FAILED || len(old(c0.backtrack.store)) >= 0
 
 //@ func matchBranch [C03 C09 C10]
 //@   requires cellOk(current_state)
